@@ -44,7 +44,7 @@ def enumeration():
         out = []
         for fmt in ("sm", "ssc"):
             for fs in ("native", "mem"):
-                for output in (False, True):
+                for output in (False, True, "same"):
                     for backup in (None, "ok", "clash_input", "clash_output"):
                         if backup == "clash_output" and not output:
                             continue
@@ -276,7 +276,7 @@ def oracle(c, o):
     if bak and bak in files and not (c["fault"] and c["fault"][1] == "bak") and o["entry"] is not None:
         if o.get("bak_parses_to") != ["ok", o["entry"]]:
             return "the backup was written (the call ended with %s), but it does not parse to the original simfile" % o["exc"]
-    if o["exc"] == "OSError" and o.get("fault_fired") and bak is not None and out is None and c["fault"] and c["fault"][1] == "out" and c["fault"][0] in ("write", "close"):
+    if o["exc"] == "OSError" and o.get("fault_fired") and bak is not None and (out is None or out == inp) and c["fault"] and c["fault"][1] == "out" and c["fault"][0] in ("write", "close"):
         # the input is being overwritten when the fault hits: the original must survive in the backup
         if o.get("bak_parses_to") != ["ok", o["entry"]]:
             return "the original is lost: output write failed and the backup is not complete"
